@@ -160,8 +160,8 @@ def run(oc, tier, seed, model_available, escalate):
                 finding = "F19"
         if bad:
             oc.violations.append({"finding": finding, "input": {"params": P.describe(), "tree": sorted(tree), "destroyed": destroyed[:10], "lost_blocks": sorted(lost),
-                                            "truncated": trunc, "ecc": bytes(dm).hex() if len(dm) < 3000 else "<%d bytes>" % len(dm),
-                                            "idx": bytes(di).hex() if len(di) < 3000 else "<%d bytes>" % len(di)},
+                                            "truncated": trunc, "ecc": bytes(dm).hex(),
+                                            "idx": bytes(di).hex()},
                                   "impl": {"exit": rc}, "what": bad})
         if rep is not None and len(dm) < 20000:
             t = rec.tables().split(" ; ")
